@@ -32,6 +32,7 @@ type readCase struct {
 	At       int    `json:"at"`
 	WithData bool   `json:"with_data"`
 	Truncate bool   `json:"truncate"`
+	Once     bool   `json:"once"` // transient fault
 }
 
 func checkRead(c *readCase) (msg string, delivered bool) {
@@ -50,7 +51,7 @@ func checkRead(c *readCase) (msg string, delivered bool) {
 		}
 		return "", true
 	}
-	r := &iofault.FailAt{Data: c.Data, At: c.At, WithData: c.WithData}
+	r := &iofault.FailAt{Data: c.Data, At: c.At, WithData: c.WithData, Once: c.Once}
 	_, err := tg.Run(r)
 	if r.Delivered && err == nil {
 		return fmt.Sprintf("%s: a read fault at offset %d of %d (data with error: %v) was delivered to the library but the call returned no error", c.Target, c.At, len(c.Data), c.WithData), true
@@ -80,7 +81,7 @@ func genReadInput(t *rapid.T) (target string, data []byte, label string, truncat
 func TestP1ReadFaults(t *testing.T) {
 	rec := ev.New("C13", "readfaults")
 	defer rec.Finish(t)
-	rec.Rule("for each generated input (programs incl. eexec sections, single-CMap files, Type 1 fonts in the four containers from both writers, AFM files, PFB streams; up to 8 KB): a read fault with a distinct sentinel error at EVERY byte offset 0..len, once with the error returned alone and once returned together with the last bytes before the offset; for Type 1 and CMap files additionally a truncation at EVERY offset. Oracle: if the fault was delivered to the library (the wrapper records it) the call must return a non-nil error and must not panic; a truncated file must give an error or the result of the complete file. Non-trivial: fault delivered and strictly inside the data; distinct by (input, offset, variant).")
+	rec.Rule("for each generated input (programs incl. eexec sections, single-CMap files, Type 1 fonts in the four containers from both writers, AFM files, PFB streams; up to 8 KB): a read fault with a distinct sentinel error at EVERY byte offset 0..len, with the error returned alone or together with the last bytes before the offset, persistent (every later read fails too; both forms) or transient (error returned alone once, reading would continue normally afterwards); for Type 1 and CMap files additionally a truncation at EVERY offset. Oracle: if the fault was delivered to the library (the wrapper records it) the call must return a non-nil error and must not panic; a truncated file must give an error or the result of the complete file. Non-trivial: fault delivered and strictly inside the data; distinct by (input, offset, variant).")
 	ev.SetupRapid(48, 1200)
 	rapid.Check(t, func(t *rapid.T) {
 		target, data, label, trunc := genReadInput(t)
@@ -91,8 +92,11 @@ func TestP1ReadFaults(t *testing.T) {
 		rec.Class(label)
 		h := ev.Hash(string(data))
 		for at := 0; at <= len(data); at++ {
-			for v := 0; v < 3; v++ {
-				c := &readCase{Target: target, Data: data, At: at, WithData: v == 1, Truncate: v == 2}
+			for v := 0; v < 4; v++ {
+				// v=3: transient fault, returned without data (a fault returned
+				// together with data is only asserted in its persistent form:
+				// io.ReadFull legitimately defers such an error to the next read)
+				c := &readCase{Target: target, Data: data, At: at, WithData: v == 1, Truncate: v == 2, Once: v == 3}
 				if c.Truncate && (!trunc || at == len(data)) {
 					continue
 				}
@@ -104,7 +108,7 @@ func TestP1ReadFaults(t *testing.T) {
 				})
 				rec.Eval(1)
 				if delivered && at > 0 && at < len(data) {
-					rec.NonTrivialHash(h + uint64(at)*3 + uint64(v))
+					rec.NonTrivialHash(h + uint64(at)*5 + uint64(v))
 				}
 				if !delivered && !c.Truncate {
 					rec.Class("fault not reached")
@@ -129,6 +133,7 @@ type writeCase struct {
 	Form    int          `json:"form"` // 1-4: formats, 5: WritePDF, 6: Metrics.Write
 	AtCall  int          `json:"at_call"`
 	AtByte  int          `json:"at_byte"`
+	Once    bool         `json:"once"` // transient fault: later calls succeed
 }
 
 func doWrite(c *writeCase, w *iofault.FailWriter, cw *iofault.CountWriter) error {
@@ -150,7 +155,7 @@ func doWrite(c *writeCase, w *iofault.FailWriter, cw *iofault.CountWriter) error
 }
 
 func checkWrite(c *writeCase) (string, bool) {
-	w := &iofault.FailWriter{AtCall: c.AtCall, AtByte: c.AtByte}
+	w := &iofault.FailWriter{AtCall: c.AtCall, AtByte: c.AtByte, Once: c.Once}
 	err := doWrite(c, w, nil)
 	if w.Delivered && err == nil {
 		return fmt.Sprintf("form %d: a write fault (call %d / byte %d) was delivered but the writer returned no error", c.Form, c.AtCall, c.AtByte), true
@@ -161,7 +166,7 @@ func checkWrite(c *writeCase) (string, bool) {
 func TestP2WriteFaults(t *testing.T) {
 	rec := ev.New("C13", "writefaults")
 	defer rec.Finish(t)
-	rec.Rule("for each generated font (x 4 formats and WritePDF) and metrics value (Metrics.Write): a write fault at EVERY write-call index 0..calls and at EVERY byte offset 0..bytes (short write + error), both counted on a fault-free dry run first. Oracle: a delivered fault makes the writer return a non-nil error, without panic. Non-trivial: fault delivered; distinct by (value, form, point).")
+	rec.Rule("for each generated font (x 4 formats and WritePDF) and metrics value (Metrics.Write): a write fault at EVERY write-call index 0..calls and at EVERY byte offset 0..bytes (short write + error), each as a persistent fault (all later calls fail too) and as a transient one (later calls succeed), counted on a fault-free dry run first. Oracle: a delivered fault makes the writer return a non-nil error, without panic. Non-trivial: fault delivered; distinct by (value, form, point).")
 	ev.SetupRapid(36, 900)
 	rapid.Check(t, func(t *rapid.T) {
 		var base writeCase
@@ -199,15 +204,21 @@ func TestP2WriteFaults(t *testing.T) {
 				rec.Fail(t, msg, map[string]any{"write": c})
 			}
 		}
-		for k := 0; k <= cw.Calls; k++ {
-			c := base
-			c.AtCall, c.AtByte = k, -1
-			try(c, uint64(k)*2)
-		}
-		for b := 0; b <= cw.Bytes; b++ {
-			c := base
-			c.AtCall, c.AtByte = -1, b
-			try(c, uint64(b)*2+1)
+		for _, once := range []bool{false, true} {
+			o := uint64(0)
+			if once {
+				o = 1 << 40
+			}
+			for k := 0; k <= cw.Calls; k++ {
+				c := base
+				c.AtCall, c.AtByte, c.Once = k, -1, once
+				try(c, o+uint64(k)*2)
+			}
+			for b := 0; b <= cw.Bytes; b++ {
+				c := base
+				c.AtCall, c.AtByte, c.Once = -1, b, once
+				try(c, o+uint64(b)*2+1)
+			}
 		}
 		if rec.WantSample() {
 			rec.Sample(map[string]any{"form": base.Form, "write_calls": cw.Calls, "bytes": cw.Bytes})
